@@ -20,6 +20,7 @@ import StepModel.ComplexCombo
 import StepModel.ComplexSim
 import StepModel.ComplexTreeKeep
 import StepModel.ComplexExhaust
+import StepModel.ComplexCount
 /-!
 # C08 — complex instances are accepted exactly when the supertype constraints allow them
 
@@ -601,14 +602,28 @@ previous choice; excluded: alternatives whose members are already marked by othe
 by design).  Scanning from position `i`, `OrList::acceptChoice` stops at some `j ≤ p` whenever the alternative at `p ≥ i`
 counts: it neither reports "no choice" nor jumps past `p`.  Together with the two theorems above: the odometer digit of an
 OrList takes every value that counts, in order, before it reaches LISTEND.  (The global statement — every choice *vector*
-is visited — and with it completeness for repeated leaf names additionally needs `choiceCount` = number of alternatives
-that count, and the positive `tryNext` specification; not done.) -/
+is visited — and with it completeness for repeated leaf names additionally needs the positive `tryNext` specification
+and the induction over vectors; not done.  `choiceCount`: `C08_choiceCount_counts`.) -/
 theorem C08_acceptChoice_skips_nothing_partial (N : List Name) (hN : N.Pairwise (· < ·)) (f : Nat) (cs : List ST) (i : Nat)
     (es : Ents) (r : List ST × Ents × Option Nat) (o : Name → Nat) (p : Nat) (chp : ST)
     (h : acceptOr f cs i es = .ok r) (hnm : names es = N) (hfr : FrL o cs es) (h0 : holdsL cs = [])
     (hnd : (lvSL cs).Nodup) (hout : ∀ n ∈ lvSL cs, o n = 0) (htidy : TidyL cs) (hip : i ≤ p) (hp : cs[p]? = some chp)
     (hpa : PA N chp) : ∃ j, r.2.2 = some j ∧ i ≤ j ∧ j ≤ p :=
   acceptOr_progress N hN f cs i es r o p chp h hnm hfr h0 hnd hout htidy hip hp hpa
+
+/-- **`choiceCount` counts, `choice1` is the first alternative that counts** — what the `choiceCount == 1` shortcut of
+`OrList::tryNext` relies on.  Every well-formed OrList (any nesting below it) in its reset state, every request:
+after `OrList::matchORs`, `choiceCount` is the number of alternatives whose `viable` reached MATCHSOME, `viable` reaches
+MATCHSOME iff there is one, `choice1` is the first of them, and with `choiceCount = 1` no other alternative counts — so
+answering NOMORE without a scan skips nothing.  Proved through the loop of `OrList::matchORs` (returned value ≥ MATCHSOME iff
+stored value ≥ MATCHSOME, also for a nested OrList that returns the `viable` of its `choice1` child). -/
+theorem C08_choiceCount_counts (f : Nat) (ts : List Tree) (es : Ents) (r : ST × Ents × MT) (hwf : treeWF (.or ts) = true)
+    (hs : (names es).Pairwise (· < ·)) (h : matchORs f (fresh (.or ts)) es = .ok r) :
+    ∃ v c c1 k cs, r.1 = .mult .or v c c1 k cs ∧ k = cs.countP (·.atLeastSome) ∧ (MT.rank .some_ ≤ v.rank ↔ 0 < k) ∧
+      (0 < k → ∃ i : Nat, c1 = (i : Int) ∧ (∃ d, cs[i]? = some d ∧ d.atLeastSome = true) ∧
+        ∀ p d, p < i → cs[p]? = some d → d.atLeastSome = false) ∧
+      (k = 1 → ∀ (p : Nat) (d : ST), cs[p]? = some d → d.atLeastSome = true → (p : Int) = c1) :=
+  orlist_count f ts es r hwf hs h
 
 -- ------------------------------------------------------------------ between two requests
 /-- regenerated from multlist.cc / complexlist.cc / complexSupport.h: `ComplexList::matches` ends with `head->reset();
